@@ -181,6 +181,17 @@ def probes():
     out["shared"] = dict(first_job=canon_path(t1.__xpm__.job.path), second_job=canon_path(t2.__xpm__.job.path),
                          path_in_second=canon_path(t2.c.p))
     try:
+        from vpk_c17.probe import TDefault2
+        t1, t2 = TDefault2(y=1), TDefault2(y=2)
+        same_object = t1.a is t2.a
+        t1.submit(run_mode=RunMode.DRY_RUN)
+        t2.submit(run_mode=RunMode.DRY_RUN)
+        out["default_two_jobs"] = dict(same_object=same_object, first_job=canon_path(t1.__xpm__.job.path),
+                                       second_job=canon_path(t2.__xpm__.job.path), first_path=canon_path(t1.a.p),
+                                       second_path=canon_path(t2.a.p))
+    except Exception as e:  # noqa
+        out["default_two_jobs"] = dict(error=f"{type(e).__name__}: {e}")
+    try:
         t = TDefault()
         t.submit(run_mode=RunMode.DRY_RUN)
         out["config_default"] = dict(jobdir=canon_path(t.__xpm__.job.path), a_p=canon_path(t.a.p),
